@@ -34,7 +34,10 @@ WS = ["", "", " ", "\n", "\t", "\r ", "  "]
 
 def rnd_string(rng):
     parts = []
-    for _ in range(rng.randrange(0, 6)):
+    if rng.random() < 0.04:
+        import json as _j
+        return _j.dumps(rng.choice(G.LONG_STRS), ensure_ascii=rng.random() < 0.5)
+    for _ in range(rng.randrange(0, 6) if rng.random() < 0.95 else rng.choice([40, 70, 130, 300])):
         r = rng.random()
         if r < 0.4:
             parts.append(rng.choice(["a", "b", "é", "😀", "ß", " ", "/", "0", "`", "'"]))
@@ -54,7 +57,8 @@ INTS = [0, 1, -1, 2 ** 31, 2 ** 53, 2 ** 53 + 1, 2 ** 63 - 1, 2 ** 63, 2 ** 63 +
 def rnd_number(rng):
     r = rng.random()
     if r < 0.3:
-        n = rng.choice(INTS) if rng.random() < 0.6 else rng.randrange(-10 ** 6, 10 ** 6)
+        k = rng.random()
+        n = rng.choice(INTS) if k < 0.45 else (rng.choice(G.BAND_NUMS) + rng.choice([0, 1, -1]) if k < 0.65 else rng.randrange(-10 ** 6, 10 ** 6))
         return str(n)
     if r < 0.35:
         return rng.choice(["-0", "0", "-0.0", "0e5", "0.0e-5", "-0e0"])
